@@ -32,6 +32,27 @@ def opsC02 : List (String × Handler) := [
         | .panic _ => "panic"
       | none => "bad-op"
     | _ => "bad-op"),
+  -- cell.forms <table> -> "ok <Level()> <Hash() hex> <Hash256() hex> <HashString()>" for row 0
+  ("cell.forms", fun
+    | [t] => match parseTable t with
+      | some tb => match tb[0]? with
+        | some row0 =>
+          -- Cell.level / hash256 / hashString of TongoModel/Cell.lean evaluated through the table result of row 0
+          -- (the tree recursion is exponential on shared DAGs)
+          match ((Table.infos sha256 tb)[0]? : Option (Outcome HashInfo)) with
+          | some (Outcome.ok i) =>
+            match i.hashAt 3 with
+            | .ok hsh =>
+              let h256 := (hsh ++ List.replicate (32 - hsh.length) 0).take 32
+              s!"ok {LevelMask.level row0.mask} {hexOut hsh} {hexOut h256} {Hex.encode hsh}"
+            | .err _ => "err"
+            | .panic _ => "panic"
+          | some (Outcome.err _) => "err"
+          | some (Outcome.panic _) => "panic"
+          | none => "bad-op"
+        | none => "bad-op"
+      | none => "bad-op"
+    | _ => "bad-op"),
   -- spec.levels <table> -> the definition (Spec.hashAt/depthAt/level) on the unfolded tree of row 0
   ("spec.levels", fun
     | [t] => match parseTable t with
